@@ -392,6 +392,9 @@ class Emitted:
         self.fn = None         # FnItem
 
 
+GLOBAL_OPTIONAL_RULES = [('optclosure', '')]
+
+
 def emit_function(root, c, mode, extra_fmt_fns):
     """mode: 'verify' | 'assume' | 'vacuity'.
     returns Emitted"""
@@ -401,7 +404,8 @@ def emit_function(root, c, mode, extra_fmt_fns):
     sig = fn.sig_text
     body = fn.body_text
     ctx = R.RuleCtx(c.name, extra_fmt_fns, em.log)
-    for rule, arg in c.rules:
+    # rules that every function gets when their pattern occurs (they only remove constructs that Verus cannot see through)
+    for rule, arg in [(r + '?', a) for r, a in GLOBAL_OPTIONAL_RULES] + list(c.rules):
         optional = rule.endswith('?')
         rule = rule.rstrip('?')
         if not hasattr(R, 'rule_' + rule):
